@@ -117,7 +117,7 @@ func (fs *FS) getFiles(paths ...string) ([]*file, []error) {
 		return files, errs
 	}
 	for i := range paths {
-		result, err := results[i].Record, results[i].Err
+		result, err := results[i].Record, fs.notDirIfParentIsFile(paths[i], results[i].Err)
 		files[i], errs[i] = &file{
 			fileData: &fileData{
 				runOnceFileRecord: runOnceFileRecord{record: result},
